@@ -153,6 +153,9 @@ struct simfd {
 static struct simfd fds[MAXFD];
 static int nfds_used;
 static enum ep_kind ep_script[64]; static int ep_n, ep_i;
+/* an `ep` command is staged and takes effect at the next getaddrinfo(), i.e. when the library
+   really builds a new candidate list (a refused connect call must not disturb a running attempt) */
+static enum ep_kind ep_pending[64]; static int ep_pending_n = -1;
 static int cur_fd = -1;  /* most recently created sim fd: target of rx/tx commands */
 
 /* pending rx/tx given before a socket exists are kept here and moved to the next accepted fd */
@@ -389,6 +392,7 @@ int __wrap_getaddrinfo(const char *node, const char *service, const struct addri
     unsigned hsum = 0;
     const char *p;
     (void)hints;
+    if (ep_pending_n >= 0) { memcpy(ep_script, ep_pending, sizeof(ep_script)); ep_n = ep_pending_n; ep_i = 0; ep_pending_n = -1; }
     for (i = 0; i < gai_n; i++) if (!strcmp(gai_rules[i].host, node)) { fail = gai_rules[i].fail; n = gai_rules[i].n; break; }
     tr("G:%s:%s=%s%d ", node, service, fail ? "fail" : "", fail ? 0 : n);
     if (fail || n == 0) { *res = NULL; return EAI_NONAME; }
@@ -666,7 +670,7 @@ static void world_reset(void)
         free(fds[i].wbuf);
     }
     memset(fds, 0, sizeof(fds));
-    nfds_used = 0; ep_n = ep_i = 0; cur_fd = -1;
+    nfds_used = 0; ep_n = ep_i = 0; ep_pending_n = -1; cur_fd = -1;
     free(srv_answer); srv_answer = NULL; srv_answer_len = 0; srv_fail = 1;
     gai_n = 0;
     tls_v_n = tls_v_i = 0; tlsnew_fail = 0; cb_set = 0;
@@ -748,9 +752,9 @@ static void exec_cmd(char *cmd)
         free(h);
     } else if (!strcmp(argv[0], "ep")) {
         char *s2 = NULL, *e;
-        ep_n = ep_i = 0; /* a new script replaces what is left of the previous one */
-        for (e = strtok_r(argv[1], ",", &s2); e && ep_n < 64; e = strtok_r(NULL, ",", &s2))
-            ep_script[ep_n++] = !strcmp(e, "refuse") ? EP_REFUSE : !strcmp(e, "late") ? EP_LATE : !strcmp(e, "hang") ? EP_HANG
+        ep_pending_n = 0; /* a new script replaces what is left of the previous one (at the next getaddrinfo) */
+        for (e = strtok_r(argv[1], ",", &s2); e && ep_pending_n < 64; e = strtok_r(NULL, ",", &s2))
+            ep_pending[ep_pending_n++] = !strcmp(e, "refuse") ? EP_REFUSE : !strcmp(e, "late") ? EP_LATE : !strcmp(e, "hang") ? EP_HANG
                               : !strcmp(e, "immediate") ? EP_IMMEDIATE : EP_ACCEPT;
     } else if (!strcmp(argv[0], "run")) {
         int n = argc > 1 ? atoi(argv[1]) : 1, i;
